@@ -88,9 +88,25 @@ var acsLocations = []string{
 	"https://sp%d.example/acs/%d?a=1&amp;lt=2&quot=3&#x41;=4",
 }
 
+// acsLocationsOdd: legal URI references that are not http(s) URLs - a private-use scheme in its single-slash form (native
+// applications), relative references that look like "host/path", a URN. Registered is the string, whatever it looks like.
+var acsLocationsOdd = []string{
+	"com.example.app%d:/saml/acs/%d",
+	"sp%d.example.com/saml/acs/%d",
+	"sp%d.example.com:8443/saml/acs/%d",
+	"/sp%d/relative/acs/%d",
+	"https://sp%d.example/acs/%d?zone=eu&app=crm&b=2&a=1",
+	"https://sp%d.example/acs/%d?key&flag=;x&sp=%%20y",
+	"https://sp%d.example/acs|v2/%d?RelayState=fixed&tenant=blue",
+}
+
 var allBindings = []string{world.BindPost, world.BindRedirect, world.BindArtifact, world.BindPAOS, world.BindOther}
 
-func genACSList(t *rapid.T, sp int, minLen, maxLen int, bindings []string) []world.ACSSpec {
+func genACSList(t *rapid.T, sp int, minLen, maxLen int, bindings []string, odd ...bool) []world.ACSSpec {
+	locs := acsLocations
+	if len(odd) > 0 && odd[0] {
+		locs = append(append([]string(nil), acsLocations...), acsLocationsOdd...)
+	}
 	var lens []int
 	for l := maxLen; l >= minLen; l-- {
 		lens = append(lens, l)
@@ -101,9 +117,15 @@ func genACSList(t *rapid.T, sp int, minLen, maxLen int, bindings []string) []wor
 	n := pick(t, "nacs", lens)
 	var out []world.ACSSpec
 	for i := 0; i < n; i++ {
-		loc := fmt.Sprintf(rapid.SampledFrom(acsLocations).Draw(t, "acsloc"), sp, i)
+		loc := fmt.Sprintf(rapid.SampledFrom(locs).Draw(t, "acsloc"), sp, i)
+		binding := pick(t, "acsbinding", bindings)
+		if !strings.Contains(loc, ":") && binding == world.BindRedirect {
+			// a relative reference in a Location header is resolved against the IdP's own URL by net/http: only the form
+			// action carries it verbatim
+			binding = world.BindPost
+		}
 		out = append(out, world.ACSSpec{
-			Binding:          pick(t, "acsbinding", bindings),
+			Binding:          binding,
 			Location:         loc,
 			Index:            rapid.SampledFrom([]string{"0", "1", "2", "7", "65535", "10", "12", "100", "02"}).Draw(t, "acsindex"),
 			IsDefault:        rapid.SampledFrom([]string{A, A, "true", "false", "1", "0"}).Draw(t, "acsdefault"),
@@ -122,6 +144,7 @@ type worldOpts struct {
 	customSSO     bool
 	maxSPs        int
 	entityIDChars bool
+	oddLocations  bool // registered Locations that are not http(s) URLs, or whose query is not in any canonical form
 }
 
 func genIdPConfig(t *rapid.T, o worldOpts) world.IdPConfig {
@@ -177,7 +200,7 @@ func genSSOWorld(t *rapid.T, o worldOpts) world.Spec {
 		if o.entityIDChars && rapid.Bool().Draw(t, "oddentity") {
 			sp.EntityID = fmt.Sprintf(rapid.SampledFrom([]string{"https://sp%d.example/md?x=1&y=2", "urn:example:sp%d", "https://sp%d.example/metadata/", "https://SP%d.example/metadata"}).Draw(t, "entityform"), i)
 		}
-		sp.ACS = genACSList(t, i, o.minACS, o.maxACS, o.bindings)
+		sp.ACS = genACSList(t, i, o.minACS, o.maxACS, o.bindings, o.oddLocations)
 		if o.signingFlags {
 			sp.AuthnRequestsSigned = rapid.SampledFrom([]string{A, A, "false", "0", "true", "1"}).Draw(t, "spsigned")
 			if rapid.IntRange(0, 5).Draw(t, "nocert") == 0 {
@@ -187,7 +210,11 @@ func genSSOWorld(t *rapid.T, o worldOpts) world.Spec {
 		nslo := rapid.IntRange(0, 2).Draw(t, "nslo")
 		sp.SLO = nil
 		for k := 0; k < nslo; k++ {
-			sp.SLO = append(sp.SLO, world.SLOSpec{Binding: rapid.SampledFrom([]string{world.BindPost, world.BindRedirect}).Draw(t, "slobinding"), Location: fmt.Sprintf("https://sp%d.example/slo/%d", i, k),
+			sloForm := "https://sp%d.example/slo/%d"
+			if o.oddLocations {
+				sloForm = rapid.SampledFrom([]string{sloForm, sloForm, "sp%d.example.com:8443/saml/slo/%d", "com.example.app%d:/saml/slo/%d", "https://sp%d.example/slo/%d?z=1&a=2&region=eu"}).Draw(t, "sloform")
+			}
+			sp.SLO = append(sp.SLO, world.SLOSpec{Binding: rapid.SampledFrom([]string{world.BindPost, world.BindRedirect}).Draw(t, "slobinding"), Location: fmt.Sprintf(sloForm, i, k),
 				ResponseLocation: rapid.SampledFrom([]string{"", "", fmt.Sprintf("https://sp%d.example/slo/%d/response", i, k)}).Draw(t, "sloresponselocation")})
 		}
 		spec.SPs = append(spec.SPs, sp)
